@@ -79,6 +79,20 @@ Theorem installed_is_prefixes_map : forall me evs p f,
 Proof. exact installed_is_prefixes_map_l. Qed.
 Print Assumptions installed_is_prefixes_map.
 
+(* What `desired` depends on: tables with the same RIB view that agree on the faces of the next hops occurring in it and
+   on the prefix sets of the reachable remote routers occurring in it prescribe the same routes (so such a change needs
+   no fibUpdate: this is the frame the daemon's "dirty" tests rely on; the harness checks the daemon's own decisions
+   at every quiescent point of kind-"net" histories). *)
+Theorem desired_depends_only_on : forall t t',
+  t_me t' = t_me t -> t_rib t' = t_rib t ->
+  (forall r, In r (t_rib t) -> face_of (t_nbr t') (re_nh1 r) = face_of (t_nbr t) (re_nh1 r) /\
+                                face_of (t_nbr t') (re_nh2 r) = face_of (t_nbr t) (re_nh2 r)) ->
+  (forall r, In r (t_rib t) -> re_l1 r < cost_infinity -> re_name r <> t_me t ->
+             forall p, mem p (pfx_of t' (re_name r)) = mem p (pfx_of t (re_name r))) ->
+  forall p f, desired t' p f = desired t p f.
+Proof. exact desired_frame. Qed.
+Print Assumptions desired_depends_only_on.
+
 (* the decidable predicate the runner evaluates on the implementation's command stream and table dumps *)
 Theorem mirrorsb_is_spec : forall t rt, mirrorsb t rt = true <-> forall p f, rt_lookup rt (p, f) = desired t p f.
 Proof. exact mirrorsb_spec. Qed.
